@@ -33,7 +33,43 @@ fn main() {
         for _ in 0..3 { let i = rng.below(ops.len() as u64) as usize; ops.insert(i, Op::Gc); }
         let cfg = Cfg { threads: 1 + (h % 3), merge_policy: (h % 2) as u8, stop_on_error: false };
         let vd = VerifDirectory::new();
-        let res = e1::run_history(&vd, &ops, &cfg, false);
+        // a reader on a SECOND Index instance of the same directory keeps reloading while the writer works
+        // (slowed down inside its reload, GC slowed down between its deletes): GC must never remove a file such a
+        // reload still has to open
+        let (schema0, _f0) = e1::schema();
+        let index0 = Index::create(vd.clone(), schema0, tantivy::IndexSettings::default()).unwrap();
+        let mut hr = rng.fork();
+        let jitter: Vec<u64> = (0..64).map(|_| hr.below(4)).collect();
+        vd.set_hook(Some(std::sync::Arc::new(move |_vd, seq, kind, _path| {
+            let is_reader = std::thread::current().name().map(|n| n.starts_with("reader-")).unwrap_or(false);
+            let j = jitter[seq % 64];
+            if (is_reader && matches!(kind, OpKind::OpenRead | OpKind::AtomicRead)) || (!is_reader && matches!(kind, OpKind::Delete)) {
+                if j > 0 { std::thread::sleep(std::time::Duration::from_micros(120 * j)); } else { std::thread::yield_now(); }
+            }
+        })));
+        let stop = std::sync::Arc::new(std::sync::atomic::AtomicBool::new(false));
+        let reader_handle = {
+            let ix2 = Index::open(vd.clone()).unwrap();
+            let stop = stop.clone();
+            std::thread::Builder::new().name("reader-0".into()).spawn(move || {
+                let mut errors: Vec<String> = vec![];
+                let reader: tantivy::IndexReader = match ix2.reader_builder().reload_policy(tantivy::ReloadPolicy::Manual).try_into() { Ok(r) => r, Err(e) => return vec![format!("reader creation: {e}")] };
+                loop {
+                    let done = stop.load(std::sync::atomic::Ordering::SeqCst);
+                    match guarded(|| reader.reload()) { Ok(Ok(())) => {}, Ok(Err(e)) => errors.push(format!("{e}")), Err(p) => errors.push(format!("panic: {p}")) }
+                    if done { break; }
+                    std::thread::sleep(std::time::Duration::from_micros(250));
+                }
+                errors
+            }).unwrap()
+        };
+        let res = e1::run_history_on(&vd, Some(index0), &ops, &cfg, false);
+        stop.store(true, std::sync::atomic::Ordering::SeqCst);
+        for e in reader_handle.join().unwrap_or_else(|_| vec!["reader thread panicked".into()]) {
+            out.spec_checked(false, json!({"what": "a reload on a second Index instance failed while the writer was working (file removed while needed by a reader in the middle of loading?)", "err": e,
+                                           "case": {"history": ops.iter().map(|o| o.to_json()).collect::<Vec<_>>(), "threads": cfg.threads, "merge_policy": cfg.merge_policy}}));
+        }
+        vd.set_hook(None);
         let desc = json!({"history": ops.iter().map(|o| o.to_json()).collect::<Vec<_>>(), "threads": cfg.threads, "merge_policy": cfg.merge_policy});
         if let Some(p) = &res.panicked { out.spec_checked(false, json!({"what": "panic in a fault-free history", "panic": p, "case": desc})); continue; }
         let index: Index = match &res.index { Some(i) => i.clone(), None => continue };
